@@ -81,6 +81,9 @@ EXTRA_SNIPPETS = {
     "fullNob2": ("Nobelmanxo v. Acmexo, 520 U.S. 17 (1997)", "FullCaseCitation", 0),
     "refNob": ("Nobelmanxo v. Acmexo, 520 U.S. 17 (1997). In Nobelmanxo at 19 we see", "ReferenceCitation", 0),
     "supraNob": ("Nobelmanxo, supra, at 20.", "SupraCitation", 0),
+    # references to the two roman-page cases of one volume (same party names: only the page tells them apart)
+    "supraIota": ("Iotaxo, supra, at xiii.", "SupraCitation", 0),
+    "shortIota": ("Iotaxo, 3 U.S. at xiii.", "ShortCaseCitation", 0),
     "supraPunct": ("the rule ..., supra, at 4.", "SupraCitation", 0),      # antecedent of punctuation only
     "supraDash": ("as noted --, supra.", "SupraCitation", 0),
 }
@@ -135,6 +138,7 @@ FOCUS["antecedent"] = ["fullD", "fullE", "fullMc", "fullDon", "supraEdu", "supra
 FOCUS["periods"] = ["fullNLRB", "fullNLRBplain", "supraNLRB", "shortNLRB", "supraNLRBplain", "idValid"]
 FOCUS["reference"] = ["fullA", "fullA2", "fullB", "refA", "refA2", "refAlpha", "supraA", "shortA_named", "idNoPin"]
 FOCUS["name_only"] = ["fullAnte", "fullNob2", "refNob", "supraNob", "fullA", "refA"]
+FOCUS["roman"] = ["fullRoman", "fullRoman2", "supraIota", "shortIota", "idNoPin", "idRoman"]
 FOCUS_LMAX = {3: 4, 5: 5}     # base bound -> focus bound
 
 
